@@ -176,7 +176,8 @@ def build_slice(path, entries, tier, log):
     link_in = [lib]
     if extract:
         xbc = os.path.join(wd, "extract.bc")
-        P.run(["llvm-extract-14"] + ["--func=" + f for f in extract] + [lib, "-o", xbc])
+        # names prefixed with "data:" are file-local constants / variables (llvm-extract --glob)
+        P.run(["llvm-extract-14"] + [("--glob=" + f[5:]) if f.startswith("data:") else ("--func=" + f) for f in extract] + [lib, "-o", xbc])
         xt = P.run([P.LLVM_DIS, xbc, "-o", "-"])
         xt = re.sub(r"\b(hidden|internal|fastcc) ", "", xt)
         xll = os.path.join(wd, "extract.ll")
